@@ -545,7 +545,7 @@ let safe_span fx types mo =
           if (&&) fx.fx_float (negb (forallb is_floatty types))
           then TObj
           else TCDouble
-        | TCBint -> if (&&) fx.fx_bint mo then TPyBool else TCBint
+        | TCBint -> if (&&) fx.fx_bint mo then TObj else TCBint
         | _ -> r)
 
 (** val aggr_span : ty list -> ty **)
@@ -730,6 +730,7 @@ let rec mark fx flag inner = function
 | EUn (o, a) ->
   (match o with
    | Neg -> mark fx true inner a
+   | Inv -> mark fx ((||) flag fx.fx_bint) inner a
    | _ -> mark fx flag inner a)
 | ECmp (a, b) -> app (mark fx false inner a) (mark fx false inner b)
 | ECond (c, a, b) ->
@@ -968,6 +969,22 @@ let stable fx t s d m =
       (forallb (stable_entry fx t s d m) (seq O (length d))))
     (forallb (fun a -> ann_ok fx t s d a.a_rhs) s.s_assigns)
 
+(** val first_pass :
+    flags -> imode -> tables -> summary -> ty list -> ty list **)
+
+let first_pass fx m t s d0 =
+  map (fun x ->
+    match nth x s.s_decl None with
+    | Some t0 -> t0
+    | None ->
+      (match m with
+       | MOff -> TObj
+       | _ ->
+         (match inferred_types t s (fun _ -> TObj) (fun _ -> false) x with
+          | [] -> TObj
+          | t0 :: l -> span_mode fx m (t0 :: l) (mo_of fx s x))))
+    (seq O (length d0))
+
 type infer_result =
 | Inferred of ty list
 | NoFixpoint
@@ -978,7 +995,7 @@ type infer_result =
 
 let infer fx m t s d0 =
   match reinfer_loop fx m t s (S (S (add (length d0) (length s.s_assigns))))
-          d0 with
+          (first_pass fx m t s d0) with
   | Some d -> if stable fx t s d m then Inferred d else Unstable d
   | None -> NoFixpoint
 
